@@ -122,6 +122,17 @@ def _r3(ctx):
                 for y in subterms(v):
                     if y[0] == "call" and "pktparser::Buffer" in str(y[1]) and y[3] in [r[0] for r in reads]:
                         fld_of.setdefault(y[3], fname)
+        # a header field is the octets read for it: nothing is masked, shifted or added on the way into the struct.  (Reserved bits of
+        # `flags`, `secs`, `hops` mean nothing to this server, but a reply echoes some of these fields and a relay expects them back.)
+        VERBATIM = ("htype", "hlen", "hops", "xid", "secs", "flags")
+        for _, bb, idx, s in find_aggs(P, "dhcppkt::Dhcp", [b]):
+            t = norm(T.rvalue(s["rv"], bb, idx))
+            for fname, v in t[3]:
+                if fname not in VERBATIM:
+                    continue
+                ops = sorted({y[1] for y in subterms(v) if y[0] in ("bin", "un")})
+                ctx.check(not ops, "R3", "decoded-field-is-the-octets-read:%s" % fname, ctx.where(b, s["sp"]),
+                          "the decoder computes `%s` from what it read (%s): the field must be stored as read" % (fname, ", ".join(map(str, ops)) or "-"))
         # magic: the read compared with the constant
         for bb, idx, s in b.stmts():
             if "rv" in s and s["rv"]["k"] == "bin" and s["rv"]["op"] in ("Ne", "Eq"):
@@ -249,6 +260,20 @@ def _r2(ctx):
             ctx.saw(b)
             okk = any((callee_name(tm) or "").endswith("::or_default") for _, tm in b.calls()) and any((callee_name(tm) or "").endswith("::extend") for _, tm in b.calls())
             ctx.check(okk, "R2", "decoder-concatenates-repeated-options", ctx.where(b), "entry(code).or_default().extend(bytes)")
+            # ... every instance: once the value octets of an option were read, no path returns to the loop's head without having
+            # appended them (a fragment equal to what was collected so far is still a fragment)
+            cfg = cfg_of(b)
+            ext = [bb for bb, tm in b.calls() if (callee_name(tm) or "").endswith("::extend") or (callee_name(tm) or "").endswith("::extend_from_slice")]
+            heads = {h for (_, h) in cfg.back_edges()}
+            n_reads = 0
+            for bb, tm in b.calls():
+                nme = callee_name(tm) or ""
+                if "pktparser::Buffer" in nme and nme.rsplit("::", 1)[-1] in ("get_bytes", "get_vec") and any(bb in cfg.natural_loop(e) for e in cfg.back_edges()):
+                    n_reads += 1
+                    back = cfg.reachable_from(tm["t"], blocked=tuple(ext)) & heads if isinstance(tm.get("t"), int) else {"?"}
+                    ctx.check(not back, "R2", "every-option-instance-is-appended", ctx.where(b, tm["sp"]),
+                              "after reading an option's value the decoder can go on to the next option without appending what it read")
+            ctx.floor("R2", "option value reads in the decoder's loop", n_reads, 1)
 
 
 def _push_seq(P, b, local):
